@@ -1,7 +1,7 @@
 """Translators: /repo source -> lean/LekkerVerif/Generated/<Name>.lean"""
 import importlib
 
-NAMES = {"Kernel": "kernel", "Blocks": "blocks", "Tables": "tables", "Readout": "readout", "Modes": "modes"}
+NAMES = {"Kernel": "kernel", "Blocks": "blocks", "Tables": "tables", "Readout": "readout", "Modes": "modes", "InPulse": "inpulse"}
 
 
 def registry():
